@@ -141,10 +141,30 @@ def _mask_epilogue(prog, cfg):
     return out
 
 
+def _path_epilogue(prog, cfg):
+    """get_contraction_path twice for the same network (second call served by the two lru tables of oe_blocksparse),
+    then contract_with_unroll along that path."""
+    import yastn
+    out = []
+    for h in prog.init[:2]:
+        if h.rank < 2 or not h.blocks:
+            continue
+        a = h.to_yastn(cfg)
+        labs = list("abcdefgh"[:h.rank])
+        args = [a, labs, a.conj(), [labs[0]] + [x.upper() for x in labs[1:-1]] + [labs[-1]],
+                [x for x in labs[1:-1]] + [x.upper() for x in labs[1:-1]]]
+        p1, _ = yastn.get_contraction_path(*args)
+        p2, _ = yastn.get_contraction_path(*args)
+        out.append(("P", tuple(map(tuple, p1)), tuple(map(tuple, p2))))
+        out.append(raw(yastn.contract_with_unroll(*args, optimize=p2)))
+    return out
+
+
 def _run(prog, cfg, perturb_fusion=False):
     pool, _ = GP.execute(prog, cfg, observe_steps=False)
     out = [raw(x) for x in pool]
     out += _mask_epilogue(prog, cfg)
+    out += _path_epilogue(prog, cfg)
     if perturb_fusion:
         # fusion-history twins: same struct/slices, history dropped -> must not poison entries of the original
         import yastn
